@@ -153,6 +153,12 @@ func registerIntrinsics(e *Engine) {
 	in["verifOverflowed"] = func(p *Path, caller *frame, pos token.Pos, args []Value) Value {
 		return p.ts.Bool(len(p.overflows) > 0)
 	}
+	// verifUnmodelled(msg): the environment model has no answer for what the code
+	// under test just asked of it — the path is inconclusive, never a finding
+	in["verifUnmodelled"] = func(p *Path, caller *frame, pos token.Pos, args []Value) Value {
+		p.abortf(abortUnmodelled, "environment model: %s", concStr(p, args[0], "unmodelled"))
+		return nil
+	}
 	in["verifTrace"] = func(p *Path, caller *frame, pos token.Pos, args []Value) Value {
 		p.tracef("%s", concStr(p, args[0], "trace"))
 		return nil
